@@ -40,6 +40,26 @@ CLAIMED["C18"] = {
   "technique": "Lean 4 invariants + bounded-progress lemmas over an N-thread step machine + lock-step correspondence under a deterministic scheduler",
 }
 
+_RC_NOTE = "Trusted: Lean kernel + audited axioms; SC for the half-locks (all SeqCst, checked; DRF-SC trusted); the shim reports every shared-memory operation and sigaction call of the registry; deliveries are simulated calls of the real dispatcher (the real disposition is checked first); HashMap/BTreeMap/Arc by their specifications; user actions / foreign handlers opaque and terminating."
+CLAIMED["C02"] = {
+  "text": "Lean 4 theorems on the concurrent registry model L6 (two embedded half-lock machines + snapshot contents + kernel table; any number of threads, every interleaving, every state): the dispatcher's plan is a function of the pinned data snapshot only (the slot's actions in map order, nothing of other signals), it is executed one action per step in order each exactly once with the chained handler first, the pinned snapshot is the one current at the delivery's data.load() (C01_read_gets_current), registrations append (execution order = registration order), removals keep the order of the rest, operations never touch other signals' slots and never remove slots. Tied to /repo by lock-step differential execution of the real registry (real register/unregister/unregister_signal + the real dispatcher via verif::deliver, incl. deliveries nested on mutator threads) against L6 on the same schedule, and by the C02 trace monitor (each delivery's run list = the action list of the registry state current at its load; spec advanced at each publication) evaluated on the implementation trace.",
+  "design_ref": "DESIGN.md section 6 C02",
+  "note": _RC_NOTE + " The real-time corollary (registered-before / removed-after) is checked by the trace monitor on every explored schedule and follows from the proved step lemmas + writer mutual exclusion (C18); its trace-level Lean statement is listed as future work in DESIGN.md.",
+  "technique": "Lean 4 step lemmas over the N-thread registry machine + lock-step model/implementation correspondence + linearizability monitor on implementation traces",
+}
+CLAIMED["C03"] = {
+  "text": "Lean 4 theorems, for every state of the rest of the system (reachable or not, i.e. every point at which every other thread - or the interrupted thread - may be paused): a thread inside a half-lock read section performs only atomic load / fetch_add / fetch_sub, every such step is enabled regardless of all other threads and strictly decreases the number of own steps left (read section = exactly 4 + uses own steps), a release of a snapshot is never performed from a read section, and between pinning and unpinning the dispatcher only calls the chained handler and the actions and releases nothing. Tied to /repo by the registry step correspondence with deliveries forced at every scheduling point of concurrent mutators (incl. nested on the mutator's own thread), a per-step event-kind monitor on the implementation trace (no lock/alloc/free/spin/yield/syscall inside a delivery, step bound 8 + actions + chained handler) and a #[global_allocator] wrapper counting heap operations of library code inside deliveries.",
+  "design_ref": "DESIGN.md section 6 C03",
+  "note": _RC_NOTE + " Built-in actions (flag, pipe wake, exfiltrators, conditional shutdown) are covered at the step level where their code is shimmed (channel, exfiltrators: C06-C10) and otherwise by the heap/lock monitors; see DESIGN.md for what is partial.",
+  "technique": "Lean 4 wait-freedom / bounded-step lemmas + event-kind and heap monitors on scheduled executions of the real dispatcher",
+}
+CLAIMED["C04"] = {
+  "text": "Lean 4 theorems on L6: calling conventions of Prev::execute (1-arg vs 3-arg, default/ignore not called), a pinned slot's prev has priority, in the first-registration window the handler stored in the pinned race_fallback snapshot is used and only if stored for this very signal, and a prev call only ever happens as the first step of a dispatch plan (once, before every action). Tied to /repo by the registry step correspondence with foreign C-ABI handlers pre-installed (1-arg and SA_SIGINFO, checking signal/info/context pointers), deliveries forced into every step of concurrent first registrations (same and other signals), and the C04 monitor (exactly one call, first, right convention and arguments) on the implementation trace.",
+  "design_ref": "DESIGN.md section 6 C04",
+  "note": _RC_NOTE + " Environment hypothesis: nobody outside the library changes the disposition after the library first read it. The global handover invariant (disposition = library implies slot or matching fallback) is checked by the monitor on all explored schedules; its inductive Lean proof is listed in DESIGN.md as in progress.",
+  "technique": "Lean 4 dispatch lemmas + lock-step correspondence with forced deliveries in the first-registration window + chaining monitor",
+}
+
 NOT_YET = {}
 ALL = ["C%02d" % i for i in range(1, 19)]
 
